@@ -1341,6 +1341,11 @@ def _minmax(is_min):
         res = vals[0]
         for x in vals[1:]:
             if not (is_num(x) and is_num(res)):
+                if isinstance(x, (VTuple, VStr)) and type(x) is type(res):
+                    # ordered values: whatever `<` / `>` means for them (lexicographic for tuples)
+                    c = compare(it, ast.Lt() if is_min else ast.Gt(), x, res, n)
+                    res = ite(c, x, res)
+                    continue
                 raise Unsupported("min/max of non-numbers")
             if isinstance(x, VFloat) or isinstance(res, VFloat):
                 c = as_real(x) < as_real(res) if is_min else as_real(x) > as_real(res)
